@@ -210,7 +210,10 @@ func TrimmedCSVSeq(s string) iter.Seq[string] {
 			case escape:
 				part.WriteByte(c)
 				escape = false
-			case c == '\\':
+			case c == '\\' && inQuotes:
+				// a quoted-pair exists only inside a quoted-string (RFC 9110
+				// §5.6.4); elsewhere a backslash is an ordinary byte and the
+				// comma after it still separates the elements
 				part.WriteByte(c)
 				escape = true
 			case c == '"':
